@@ -652,7 +652,9 @@ let op_cut r = function
         flag r "prop:C10:reader-failure-replaced-by-scan-error";
       (match signal with
        | "eof" | "zeros" | "chunke" ->
-         if not (c_err = "eof" || c_err = "scan" || (not consumed_all && c_err = f_err)) then flag r "prop:C10:error-class"
+         (* (a race report's closing separator ends the scan by itself, before the end of the stream is seen) *)
+         let footer_end = kind = "race" && c_err = "nil" && is_suffix "==================\n" cut_s && List.length cgs = List.length fgs in
+         if not (c_err = "eof" || c_err = "scan" || footer_end || (not consumed_all && c_err = f_err)) then flag r "prop:C10:error-class"
        | _ ->
          if c_err = "fail:7" then ()
          else if consumed_all && (signal = "fail" || signal = "failz")
